@@ -237,4 +237,26 @@ theorem rdataLoop_inv (rdlength : Nat) :
       obtain ⟨rfl, rfl⟩ := h
       simp; omega
 
+/-! ### DHCP message type / strings -/
+
+theorem noPanic_msgTypeTryFrom (t : Nat) : NoPanic (Dhcp.msgTypeTryFrom t) := by
+  intro s h
+  unfold Dhcp.msgTypeTryFrom at h
+  repeat' split at h
+  all_goals cases h
+
+theorem noPanic_stringFromUtf8 (v : Bytes) : NoPanic (Dhcp.stringFromUtf8 v) := by
+  intro s h
+  unfold Dhcp.stringFromUtf8 at h
+  split at h <;> cases h
+
+theorem msgTypeTryFrom_toNat (t : Dhcp.MessageType) : Dhcp.msgTypeTryFrom t.toNat = .ok t := by
+  cases t <;> rfl
+
+theorem msgTypeTryFrom_inv {n : Nat} {t : Dhcp.MessageType} (h : Dhcp.msgTypeTryFrom n = .ok t) :
+    n = t.toNat := by
+  unfold Dhcp.msgTypeTryFrom at h
+  repeat' split at h
+  all_goals first | (cases h; simp [Dhcp.MessageType.toNat, *]) | cases h
+
 end Elvis.CodecB
